@@ -458,11 +458,11 @@ def rule_leaf_shapes(ctx, rule, m):
     ctx.ob(rule, "key-width", m.keylen == 2, "_unquote_impl looks up item[:%r] instead of the two hex digits" % (m.keylen,), q.site(m.loop))
 
 
-QUOTE_PROBES = ["%zz", "% a", "%41", "a%2Fb c", "%e9", "\u00e9", "a b", "%%41", "%4", "%", "", "a%2", "%C3%A9%", "100%", "%41%zz%2f", "a/b?c=d&e#f", "~._-", "%0a\n", "%2%41", "%%%"]
+QUOTE_PROBES = ["%zz", "% a", "%41", "a%2Fb c", "%e9", "\u00e9", "a b", "%%41", "%4", "%", "", "a%2", "%C3%A9%", "100%", "%41%zz%2f", "a/b?c=d&e#f", "~._-", "%0a\n", "%2%41", "%%%", "\u0663\u0664", "\uff11\uff12", "e\u0301", "\u212a%41", "\u00b2", "7", "007"]
 
 
 def _safely_quote_cells(repo):
-    """safely_quote, interpreted on one string per piece class {valid escape (either case), malformed escape, lone '%', reserved / unsafe / non-ASCII text, mixtures}:
+    """safely_quote, interpreted on one string per piece class {valid escape (either case), malformed escape, lone '%', reserved / unsafe / non-ASCII text (precomposed, decomposed, compatibility characters, non-ASCII digits), ASCII digits, mixtures}:
     existing %HH escapes are kept as they are, everything else goes through urllib.parse.quote"""
     def cells():
         import re as _re
